@@ -56,18 +56,24 @@ Definition final_checks (c : svcase) : list nat :=
       end
   end.
 
-Definition check_case (c : c10case) : list nat :=
+(* the property predicates first: they are cheap and a failure is a failing input by itself; the comparison with
+   the model (which may need the all-orders exploration) only for histories that satisfy them *)
+Definition check_case_f (fuel : nat) (c : c10case) : list nat :=
   match c with
   | C10Run sc =>
-      check_agree sc ++ nodup Nat.eq_dec (match sc with CSrv _ observed => walk observed [] [] end ++ final_checks sc)
+      match nodup Nat.eq_dec (match sc with CSrv _ observed => walk observed [] [] end ++ final_checks sc) with
+      | [] => check_agree_f fuel sc
+      | rs => rs
+      end
   end.
 
-Fixpoint find_bad_from (i : nat) (cs : list c10case) : list (nat * list nat) :=
+Fixpoint find_bad_fuel (fuel i : nat) (cs : list c10case) : list (nat * list nat) :=
   match cs with
   | [] => []
   | c :: rest =>
-      match check_case c with
-      | [] => find_bad_from (S i) rest
-      | rs => (i, rs) :: find_bad_from (S i) rest
+      match check_case_f fuel c with
+      | [] => find_bad_fuel fuel (S i) rest
+      | rs => (i, rs) :: find_bad_fuel fuel (S i) rest
       end
   end.
+Definition find_bad_from := find_bad_fuel explore_fuel.
